@@ -118,7 +118,7 @@ def r2_loader(ctx, prog):
     rec = set(READERS) | {'isEOF', 'isEmpty', 'isValid'}
     for kind in kinds + ['unknown']:
         kv = macro(prog, kind) if kind != 'unknown' else 0x77
-        cenv = {'isFirstTime': 1, 'inTransaction': 0, 'osAttrType': kv, re.compile(r'isValid@\d+\(objectFile\)'): 1, re.compile(r'isEmpty@\d+\(objectFile\)'): 0}
+        cenv = {'isFirstTime': 1, 'inTransaction': 0, 'osAttrType': kv, re.compile(r'isValid(@\d+)?\(objectFile\)'): 1, re.compile(r'isEmpty(@\d+)?\(objectFile\)'): 0}
         o = outcomes(f, prog, cenv, record=rec, rounds=2, cap=512)
         r.paths += len(o.outcomes)
         bad = None
@@ -166,7 +166,7 @@ def r2_loader(ctx, prog):
         else:
             r.ok(f['qname'], site, '%d paths, %d ending valid' % (len(o.outcomes), nvalid), file=f['file'], line=f['line'])
     # the emptied file (what a crash right after the in-place truncate leaves behind)
-    cenv = {'isFirstTime': 1, 'inTransaction': 0, re.compile(r'isValid@\d+\(objectFile\)'): 1, re.compile(r'isEmpty@\d+\(objectFile\)'): 1}
+    cenv = {'isFirstTime': 1, 'inTransaction': 0, re.compile(r'isValid(@\d+)?\(objectFile\)'): 1, re.compile(r'isEmpty(@\d+)?\(objectFile\)'): 1}
     o = outcomes(f, prog, cenv, record=rec, rounds=1, cap=64)
     r.paths += len(o.outcomes)
     keeps = [oc for oc in o.outcomes if not any(e[0] == 'write' and re.fullmatch(r'(this->)?valid', e[1]) and e[2] in ('false', '0') for e in oc['events'])]
@@ -180,7 +180,7 @@ def r2_loader(ctx, prog):
     g = prog.fn('Generation::wasUpdated')
     ctx.analysed(g)
     for tok in (0, 1):
-        o = outcomes(g, prog, {'isToken': tok, re.compile(r'isValid@\d+\(\w+\)'): 1}, record={'readULong'}, rounds=1)
+        o = outcomes(g, prog, {'isToken': tok, re.compile(r'isValid(@\d+)?\(\w+\)'): 1}, record={'readULong'}, rounds=1)
         bad = [oc for oc in o.outcomes for j, e in enumerate(oc['events']) if e[0] == 'call' and e[1] == 'readULong' and fact_of(oc, 'readULong', e[3], j) is not True and oc['retv'] in (0, '0', 'false')]
         site = 'failed read, isToken=%d' % tok
         if bad:
